@@ -19,7 +19,7 @@ HERE = os.path.dirname(os.path.abspath(__file__))
 
 def _reexec_with_env():
     want = {"PYTHONHASHSEED": "0", "OMP_NUM_THREADS": "1", "MKL_NUM_THREADS": "1", "OPENBLAS_NUM_THREADS": "1",
-            "KAPPADATA_VERIF": "1", "PYTHONDONTWRITEBYTECODE": "1"}
+            "KAPPADATA_VERIF": "1", "PYTHONDONTWRITEBYTECODE": "1", "PYTHONWARNINGS": "ignore"}
     if any(os.environ.get(k) != v for k, v in want.items()):
         env = dict(os.environ)
         env.update(want)
